@@ -205,6 +205,102 @@ func a2bReuse(c *Ctx, p *Program, rows []*reviewRow, pooled map[string]bool) {
 		}
 	}
 	c.Floor("A2b-reuse", n, 40)
+	a2bExtend(c, p, rows)
+}
+
+// a2bExtend: a reslice that provably extends a slice beyond its length (x[:len(x)+k], x[:cap(x)])
+// exposes whatever the backing array held before; unless the backing array was allocated in the
+// same function, those bytes belong to an earlier use of the buffer.
+func a2bExtend(c *Ctx, p *Program, rows []*reviewRow) {
+	db := newProverDB(p)
+	nsl := 0
+	for _, fn := range p.SrcFuncs() {
+		var pv *prover
+		k := 0
+		for _, b := range fn.Blocks {
+			for _, in := range b.Instrs {
+				sl, ok := in.(*ssa.Slice)
+				if !ok || sl.High == nil {
+					continue
+				}
+				if _, isSl := sl.X.Type().Underlying().(*types.Slice); !isSl {
+					continue
+				}
+				nsl++
+				// cheap syntactic pre-filter: High mentions len/cap of something or is an addition
+				if !mentionsLenCap(sl.High, 0) {
+					continue
+				}
+				if pv == nil {
+					pv = db.proverFor(fn)
+				}
+				sl2 := sl
+				extends := pv.proveAt(in, func(facts *[]cons) []lin {
+					return []lin{gt(pv.toLin(sl2.High, facts), pv.lenLin(sl2.X, facts)).e}
+				})
+				if !extends {
+					continue
+				}
+				k++
+				cons := fmt.Sprintf("%s:extend#%d", FnName(fn), k)
+				if freshHere(sl.X, 0) {
+					c.Pass("A2b-extend", cons, p.Pos(sl.Pos()), "extends a buffer allocated in this function (contents are zero)")
+					continue
+				}
+				if row := findRow(rows, "extend:"+FnName(fn), fmt.Sprint(k)); row != nil {
+					row.used = true
+					c.Pass("A2b-extend", cons, p.Pos(sl.Pos()), "reviewed ("+row.class+"): "+row.reason)
+					continue
+				}
+				c.Fail("A2b-extend", cons, p.Pos(sl.Pos()), "reslice extends the slice beyond its length into capacity that was not allocated in this function: the exposed elements hold data from an earlier use of the buffer")
+			}
+		}
+	}
+	c.Check(nsl >= 300, "A2b-extend", "slices-scanned", "", fmt.Sprintf("%d reslices scanned", nsl), fmt.Sprintf("only %d reslices scanned", nsl))
+}
+
+func mentionsLenCap(v ssa.Value, d int) bool {
+	if d > 4 {
+		return false
+	}
+	switch x := v.(type) {
+	case *ssa.Call:
+		if b, ok := x.Call.Value.(*ssa.Builtin); ok && (b.Name() == "len" || b.Name() == "cap") {
+			return true
+		}
+	case *ssa.BinOp:
+		return mentionsLenCap(x.X, d+1) || mentionsLenCap(x.Y, d+1)
+	case *ssa.Convert:
+		return mentionsLenCap(x.X, d+1)
+	}
+	return false
+}
+
+func freshHere(v ssa.Value, d int) bool {
+	if d > 6 {
+		return false
+	}
+	switch x := v.(type) {
+	case *ssa.MakeSlice:
+		return true
+	case *ssa.Slice:
+		if _, ok := x.X.(*ssa.Alloc); ok {
+			return true
+		}
+		return freshHere(x.X, d+1)
+	case *ssa.Phi:
+		for _, e := range x.Edges {
+			if e != v && !freshHere(e, d+1) {
+				return false
+			}
+		}
+		return true
+	case *ssa.Call:
+		if b, ok := x.Call.Value.(*ssa.Builtin); ok && b.Name() == "append" {
+			return freshHere(x.Call.Args[0], d+1)
+		}
+	}
+	return false
 }
 
 func (w locSet) withRootsUnwritten(roots map[ssa.Value]string) locSet {
